@@ -183,6 +183,12 @@ fn real_main() {
                     if k % 3 == 0 {
                         v.push(cases::maps_case_cfg(i, 0, true));
                     }
+                    if k % 3 == 1 || i.source.starts_with("dupimp") {
+                        let c = cases::maps_case_full(i, 0, false, true);
+                        if c["outcome"] != "skip-no-imported-function" {
+                            v.push(c);
+                        }
+                    }
                     v
                 })
                 .collect();
@@ -462,7 +468,7 @@ fn real_main() {
                 "file" => std::fs::read(f[1]).unwrap(),
                 // deterministic families: regenerate the family and pick the member with this source string
                 "offsets" | "manyimp" | "ops" | "bodysizes" | "bodysizes-big" | "nocode" | "noncanon" | "trailing" | "badnames" | "reffuncexp" => cases::resolve_inputs(f[0], 0).into_iter().chain(cases::resolve_inputs("bodysizes-big", 0)).find(|i| i.source == src).map(|i| i.bytes).unwrap_or_default(),
-                "exectab" | "dupimp" => {
+                "exectab" | "dupimp" | "execbulk" => {
                     let (seed, k): (u64, u64) = (f[1].parse().unwrap(), f[2].parse().unwrap());
                     cases::resolve_inputs(&format!("{}:{}", f[0], k + 1), seed).into_iter().find(|i| i.source == src).map(|i| i.bytes).unwrap_or_default()
                 }
